@@ -193,6 +193,8 @@ class Check(PropertyCheck):
         # (a refusing generator keeps the draws it consumed before refusing: model `GenFail.draws`, theorems of GenRefusal.lean - so later
         # episodes of such scenarios are compared too)
         for ep in range(rng.randint(2, 6) if may_refuse else rng.randint(5, 10) if many else rng.randint(1, 3)):
+            if ep and rng.random() < 0.3:
+                lines.append(f"mother {rng.randint(0, 99)}")
             lines.append("mreset")
             for _ in range(rng.randint(0, 3) if many and rng.random() < 0.7 else rng.randint(0, j2 * m2)):
                 if rng.random() < inject:
@@ -201,6 +203,8 @@ class Check(PropertyCheck):
                     lines += ["mark injected", f"mbad {rng.randint(0, 200)} {m2 + 1}"]
                 if rng.random() < 0.04:
                     lines.append("mfork")
+                if rng.random() < 0.03:
+                    lines.append(f"mother {rng.randint(0, 99)}")
                 lines.append(f"mauto {rng.randint(0, 50)}")
                 steps += 1
         meta.update({"kind": "multi", "steps": steps, "recirc": rc, "may_refuse": bool(not al and j1 < m1), "multi_machine": int(k2 > 1), "allow_less": al,
@@ -425,11 +429,15 @@ class Check(PropertyCheck):
         res = []
         kw = impl.menv_kwargs
         gu = single.graph_updater
-        want = kw["graph_updater_config"]
-        if type(gu) is not want.class_type:
+        from impl_ext import ResidualGraphUpdater as _RGU
+        want = kw.get("graph_updater_config")
+        # (no updater configuration given: the library's default - a residual graph updater that removes completed machine and job nodes)
+        want_cls = want.class_type if want is not None else _RGU
+        want_kwargs = want.kwargs if want is not None else {"remove_completed_machine_nodes": True, "remove_completed_job_nodes": True}
+        if type(gu) is not want_cls:
             res.append(("multi-config", f"episode graph updater {type(gu).__name__} is not the configured one"))
         else:
-            for k, v in want.kwargs.items():
+            for k, v in want_kwargs.items():
                 if getattr(gu, k) != v:
                     res.append(("multi-config", f"episode graph updater has {k}={getattr(gu, k)}, constructed with {v}"))
         if type(single.reward_function) is not kw["reward_function_config"].class_type:
